@@ -23,6 +23,7 @@ let txhist : (int * int, txrec) Hashtbl.t = Hashtbl.create 64
 type isl = { i_id : int; i_tries : int; i_exp : int; i_h : string }
 let impl_prev : (int, int * int * isl list) Hashtbl.t = Hashtbl.create 8
 let impl_prev_cl : (int, (int * string) list) Hashtbl.t = Hashtbl.create 8
+let impl_prev_state : (int, int) Hashtbl.t = Hashtbl.create 8   (* connection state of each server as the implementation showed it last *)
 let impl_prev_replied : (int * int, unit) Hashtbl.t = Hashtbl.create 8   (* (client, id): the cached request has a stored reply *)
 (* C10 runtime spec: what the implementation's duplicate cache remembers, (client, id) -> record *)
 type duprec = { d_h : string; d_pkt : string; d_created : int; mutable d_reply : string option }
@@ -41,7 +42,7 @@ let in_fault = ref false    (* the current operation ran with a failed allocatio
 
 let reset () =
   cur_fs := fs_none; dead := false; in_fault := false;
-  Hashtbl.reset txhist; Hashtbl.reset impl_prev; Hashtbl.reset pending_reset; Hashtbl.reset impl_prev_cl; Hashtbl.reset impl_prev_replied; Hashtbl.reset dupcache; Hashtbl.reset gone; Hashtbl.reset gone_srv;
+  Hashtbl.reset txhist; Hashtbl.reset impl_prev; Hashtbl.reset pending_reset; Hashtbl.reset impl_prev_cl; Hashtbl.reset impl_prev_state; Hashtbl.reset impl_prev_replied; Hashtbl.reset dupcache; Hashtbl.reset gone; Hashtbl.reset gone_srv;
   options := opt_default; clients := []; servers := []; realms := []; st := None; Hashtbl.reset display; diverged := false
 
 let b01 s = (s = "1")
@@ -379,7 +380,8 @@ let remember_impl impl_all =
                  | _ -> ()) (String.split_on_char ',' (get (kv rest) "cache" ""))
            with _ -> ())
       | [] -> ()) (impl_events impl_all "cl");
-  List.iter (fun t -> match parse_impl_srv t with Some (sv, x) -> Hashtbl.replace impl_prev sv x | None -> ()) (impl_events impl_all "srv")
+  List.iter (fun t -> match parse_impl_srv t with Some (sv, x) -> Hashtbl.replace impl_prev sv x | None -> ()) (impl_events impl_all "srv");
+  List.iter (fun t -> match t with sv :: rest -> (try Hashtbl.replace impl_prev_state (int_of_string sv) (int_of_string (get (kv rest) "state" "-1")) with _ -> ()) | [] -> ()) (impl_events impl_all "srv")
 
 let note_enq impl_all =
   List.iter (function [ sv; id; p ] ->
@@ -472,6 +474,22 @@ let op_cpkt opidx impl_all toks =
        let reqauth = List.filteri (fun i _ -> i >= 4 && i < 20) b in
        let reqid = match b with _ :: i :: _ -> int_of_n i | _ -> -1 in
        List.iter (function [ cl; p ] -> check_reply_out opidx (int_of_string cl) (bytes_of_hex p) reqauth reqid | _ -> ()) (impl_events impl_all "reply");
+       (* C08: what the proxy answers itself is the answer that belongs to the kind of request: Access-Request -> Reject
+          (Accept/Challenge only as the replay of a server's reply), Accounting-Request -> Accounting-Response,
+          Status-Server -> Access-Accept, Disconnect/CoA -> the matching NAK; and nothing is handed to a server the
+          implementation itself showed as failing *)
+       (let reqcode = match b with c0 :: _ -> int_of_n c0 | [] -> -1 in
+        List.iter (function [ _; p ] ->
+            let rc = match bytes_of_hex p with c0 :: _ -> int_of_n c0 | [] -> -1 in
+            let ok = match reqcode with
+              | 1 -> List.mem rc [ 2; 3; 11 ] | 4 -> rc = 5 | 12 -> rc = 2 | 40 -> rc = 42 | 43 -> rc = 45 | _ -> false in
+            spec opidx "C08_answer_kind" ok (Printf.sprintf "request code %d answered with code %d" reqcode rc)
+          | _ -> ()) (impl_events impl_all "reply");
+        List.iter (function [ sv; _; _ ] ->
+            (match Hashtbl.find_opt impl_prev_state (int_of_string sv) with
+             | Some stt -> spec opidx "C08_not_to_failing_server" (stt <> 4) (Printf.sprintf "server %s was failing" sv)
+             | None -> ())
+          | _ -> ()) (impl_events impl_all "enq"));
        List.iter (function [ sv; _; p ] -> check_request_out opidx (int_of_string sv) (bytes_of_hex p) | _ -> ()) (impl_events impl_all "enq"));
       note_enq impl_all;
       check_no_displace opidx impl_all c (bytes_of_hex pkt);
